@@ -459,6 +459,6 @@ func TestAberrant(t *testing.T) {
 			}
 			return cl
 		},
-		Quick: 4000, Thorough: 60000,
+		Quick: 4000, Thorough: 40000,
 	})
 }
